@@ -301,6 +301,12 @@ class VariableToken(XPathToken):
         return f'${self[0].value} variable'
 
     def nud(self: XPathToken) -> XPathToken:
+        next_token = self.parser.next_token
+        if next_token.symbol not in ('(name)', 'Q{') and not next_token and \
+                self.parser.name_pattern.match(next_token.symbol) is not None:
+            # A name separated from '$' by spaces or comments, tokenized as a function or a keyword
+            self.parser.next_token = next_token.as_name()
+
         self.parser.expected_next('(name)', 'Q{')
         self[:] = self.parser.expression(rbp=90),
         self.value = self[0].value
